@@ -34,12 +34,12 @@ Theorem C01_model_rejects_unbound_import :
 Proof. exact refuted_F06d. Qed.
 Print Assumptions C01_model_rejects_unbound_import.
 
-(* a file that does not compile is the statement Broken in the model: the class of the open findings F13b, F04c
-   (F01e, F20a, F01g were of this class and are fixed; their documents are regression cases) *)
-Theorem C01_refuted_syntax_F13b_F04c :
+(* a file that does not compile is the statement Broken in the model: the class of the former findings
+   F01e, F20a, F01g, F13b, F04c (all fixed in /repo; their documents are regression cases) *)
+Theorem C01_model_rejects_unparsable_file :
   c_parses w_syntax = false /\ failed_with (ex w_syntax [n_p; n_mocks]) ESyntax.
 Proof. exact refuted_syntax. Qed.
-Print Assumptions C01_refuted_syntax_F13b_F04c.
+Print Assumptions C01_model_rejects_unparsable_file.
 
 (* F01f is fixed (complete module paths are no longer rewritten); model fact: importing a module that is not emitted fails *)
 Theorem C01_model_rejects_missing_module :
